@@ -390,6 +390,7 @@ theorem pollout_protocol {W : World ω} (C : Cfg) (E : Engine σ) (rx : Nat) (ev
     cases ev with
     | enq buf => exact armed_enqueue x buf h
     | step rev => exact armed_task C E rx _ rev (armed_query E x h)
+    | stepFirst rev => exact armed_task C E rx _ _ (armed_query E x h)
 
 /-- "restored once init_finished": after the `DriverQuery` of any step that finds the handshake
 finished, a registered socket with queued data is polled for POLLOUT -/
@@ -403,6 +404,66 @@ theorem pollout_restored (E : Engine σ) (x : ASt σ ω) (h : Armed x) (hinit : 
     · simp [hs]
     · simp [hs, h1]
   · simp [h1]
+
+/-! ## decrypted data held inside the engine is served (F8) -/
+
+theorem driverQuery_engine (E : Engine σ) (s : St σ ω) (po : Bool) : (driverQuery E s po).2.e = s.e := by
+  unfold driverQuery
+  repeat' split
+  all_goals rfl
+
+/-- `DriverQuery` leaves the engine and the registration alone -/
+theorem aQuery_engine (E : Engine σ) (x : ASt σ ω) :
+    (aQuery E x).s.e = x.s.e ∧ (aQuery E x).a.registered = x.a.registered := by
+  by_cases h : x.a.registered = true
+  · have : aQuery E x = { a := { x.a with pollOut := (driverQuery E x.s x.a.pollOut).1 }, s := (driverQuery E x.s x.a.pollOut).2 } := by
+      simp [aQuery, h]
+    rw [this]
+    exact ⟨driverQuery_engine E x.s x.a.pollOut, rfl⟩
+  · have : aQuery E x = x := by simp [aQuery, h]
+    rw [this]
+    exact ⟨rfl, rfl⟩
+
+/-- **received_is_served** (after C03: "the receive handler gets every byte the peer sent"): a registered
+asynchronous TLS socket whose engine holds decrypted data (`SSL_pending() > 0`: the receive buffer was smaller
+than the record) is served as READABLE by the step in which `QuerySockets` returns it - whatever `poll`
+reported, in particular when it reported nothing because the descriptor is empty.  For every engine, world,
+state and reported events. -/
+theorem received_is_served {W : World ω} (C : Cfg) (E : Engine σ) (rx : Nat) (x : ASt σ ω) (rev : REvents)
+    (hr : x.a.registered = true) (hp : E.pending x.s.e = true) :
+    aApply C W E rx x (.stepFirst rev) = (aReadable C W E rx (aQuery E x)).2 := by
+  have hq := aQuery_engine E x
+  have hforced : forcedRev E (aQuery E x) rev = { rev with rd := true } := by
+    unfold forcedRev driverReceived
+    rw [hq.1, hq.2]
+    simp [hr, hp]
+  simp only [aApply, hforced, aTask]
+  rw [if_neg (by rw [hq.2]; simp [hr])]
+  simp
+
+/-- the driver before the repair of F8 (`DoOneSocketTask()` acting on the reported events only): when the
+descriptor is empty `poll` reports nothing for the socket and the step hands nothing to the receive handler,
+although the engine holds data - with no further traffic from the peer, for ever (witness of the open
+finding F8 of the earlier sessions, kept as the negative counterpart of `received_is_served`) -/
+theorem legacy_pending_stalls {W : World ω} (C : Cfg) (E : Engine σ) (rx : Nat) (x : ASt σ ω) (n : Nat) :
+    (aRun C W E rx x (List.replicate n (.step {}))).a.delivered = x.a.delivered := by
+  induction n generalizing x with
+  | zero => rfl
+  | succ k ih =>
+    simp only [List.replicate_succ, aRun, List.foldl_cons]
+    have h1 : (aApply C W E rx x (.step {})).a.delivered = x.a.delivered := by
+      simp only [aApply, aTask]
+      have hd : (aQuery E x).a.delivered = x.a.delivered := by
+        unfold aQuery
+        split
+        · rfl
+        · rfl
+      split
+      · exact hd
+      · simp [hd]
+    have := ih (aApply C W E rx x (.step {}))
+    simp only [aRun] at this
+    rw [this, h1]
 
 /-! ## `Write`: count and retry discipline (what C01/C02 need from the TLS socket) -/
 
